@@ -330,4 +330,38 @@ theorem fsAfter_repaired_eq (f : Flags) (rs : List Bool) :
   rcases f with ⟨m, fw, w, c, s, d⟩
   cases m <;> cases fw <;> cases w <;> cases c <;> cases s <;> cases d <;> cases p <;> decide
 
+/-- Exit state of run B started on top of a completed run A (given by A's four relevant flags). -/
+def SameFolderExit (fwA : Framework) (wA cA dA : Bool) (fB : Flags) : Prop :=
+    let fs := fsFrom (age (exitFS fwA wA cA dA)) (traceS .repaired cA fB [true])
+    fs .initialCfg = some (cfg .supplied true false) ∧
+    fs .trainingCfg = some (cfg .used true fB.wandb) ∧
+    fs (bestPath cA) = (if fB.ckpt then some (cfg .used true false) else none) ∧
+    fs (lastPath cA) = (if fB.ckpt then some (cfg .used true false) else none) ∧
+    (cA = true → fs .bestCkpt = some (cfg .stale true false) ∧
+                 fs .lastCkpt = some (cfg .stale true false)) ∧
+    fs .chunksCfg = (if fB.fw = .npChunks then some (cfg .prepared true false)
+                     else if fwA = .npChunks then some (cfg .stale true false) else none) ∧
+    fs .trainChunks = (if fB.fw = .npChunks then (if fB.deleteChunks then none else some .data)
+                       else if fwA = .npChunks ∧ ¬ dA then some .data else none) ∧
+    fs .valChunks = (if fB.fw = .npChunks then (if fB.deleteChunks then none else some .data)
+                     else if fwA = .npChunks ∧ ¬ dA then some .data else none)
+
+/-! A finite table (16 × 128 cases), each by kernel evaluation; split in four to keep each lemma short. -/
+theorem same_folder_exit_tf (wA dA : Bool) (fB : Flags) : SameFolderExit .torchDataset wA false dA fB := by
+  unfold SameFolderExit; cases wA <;> cases dA <;> flag_cases fB
+theorem same_folder_exit_tt (wA dA : Bool) (fB : Flags) : SameFolderExit .torchDataset wA true dA fB := by
+  unfold SameFolderExit; cases wA <;> cases dA <;> flag_cases fB
+theorem same_folder_exit_nf (wA dA : Bool) (fB : Flags) : SameFolderExit .npChunks wA false dA fB := by
+  unfold SameFolderExit; cases wA <;> cases dA <;> flag_cases fB
+theorem same_folder_exit_nt (wA dA : Bool) (fB : Flags) : SameFolderExit .npChunks wA true dA fB := by
+  unfold SameFolderExit; cases wA <;> cases dA <;> flag_cases fB
+
+theorem same_folder_exit (fwA : Framework) (wA cA dA : Bool) (fB : Flags) :
+    SameFolderExit fwA wA cA dA fB := by
+  cases fwA <;> cases cA
+  · exact same_folder_exit_tf wA dA fB
+  · exact same_folder_exit_tt wA dA fB
+  · exact same_folder_exit_nf wA dA fB
+  · exact same_folder_exit_nt wA dA fB
+
 end SleapVerif.TrainTrace
